@@ -11,6 +11,7 @@ import (
 	"path/filepath"
 	"sort"
 	"strings"
+	"time"
 
 	"github.com/a-h/templ"
 	templruntime "github.com/a-h/templ/runtime"
@@ -312,55 +313,111 @@ func c10World(rc *kernel.RunCtx) {
 			}
 		}
 	}
-	// development mode: the literals come from text files. A disk fault (the files are unreachable
-	// for a while) may fail renders; it must not alter renders after the files are back.
+	// development mode: the literals come from text files - here, in half of the runs, files that
+	// a text-only edit has changed since the program was built, so that the document the files
+	// define is not the one compiled in. A disk fault (the files unreachable for a while, or cut
+	// short by a failed write) may fail renders; a render that returns nil delivers the document
+	// the files define, and the fault must not alter renders after it is over.
 	if !rc.Failed() && t.Chance(1, 4, "devmode-disk-fault") {
 		if err := ensureDevModeFiles(); err != nil {
 			rc.Fail("harness", "dev mode files: %v", err)
 		} else {
-			cold := t.Bool("cold-cache")
 			devFilesJustModified = t.Chance(1, 3, "text-files-just-modified")
 			coldDevCache() // a fresh cache, and files dated as the tape says (see there)
+			if t.Bool("text-only-edit") {
+				// every literal gains a character at its end (an edit of static text)
+				ents, _ := os.ReadDir(devModeRoot)
+				for _, e := range ents {
+					p := filepath.Join(devModeRoot, e.Name())
+					b, err := os.ReadFile(p)
+					if err != nil {
+						continue
+					}
+					lines := strings.Split(string(b), "\n")
+					for i, ln := range lines {
+						if !strings.HasSuffix(ln, "\\") {
+							lines[i] = ln + "~"
+						}
+					}
+					fi, _ := os.Stat(p)
+					os.WriteFile(p, []byte(strings.Join(lines, "\n")), 0o644)
+					os.Chtimes(p, fi.ModTime(), fi.ModTime())
+				}
+				k.Count("probe_devmode_text_differs_from_compiled_literals", 1)
+			}
 			templruntime.SetDevelopmentMode(true)
 			devRender := func() outcome {
 				return renderOnce(u, spec, knobs{BufSize: kn.BufSize}, Fault{}, -1, -1, false, nil, nil)
 			}
-			ref := outcome{}
-			if !cold || t.Bool("render-before-fault") {
-				ref = devRender()
-				if ref.err != nil {
-					rc.Fail("C10/devmode-render-error", "development-mode render of %s: %v", spec, ref.err)
-				}
+			// the document the text files define
+			ref := devRender()
+			want := ref.got
+			if ref.err != nil {
+				rc.Fail("C10/devmode-render-error", "development-mode render of %s: %v", spec, ref.err)
 			}
+			if t.Bool("cold-cache-at-fault") {
+				coldDevCache()
+			}
+			// (files dated in the future are never looked at again once cached - that is what
+			// "modified a moment ago" means to the runtime - so a change to them goes unnoticed by
+			// design; the torn-file fault needs files the runtime does look at)
+			tornFault := t.Bool("torn-instead-of-unreachable") && !devFilesJustModified
+			aside := devModeRoot + ".aside"
+			saved := map[string][]byte{}
 			if !rc.Failed() {
-				aside := devModeRoot + ".aside"
-				if err := os.Rename(devModeRoot, aside); err != nil {
+				if tornFault {
+					ents, _ := os.ReadDir(devModeRoot)
+					for _, e := range ents {
+						p := filepath.Join(devModeRoot, e.Name())
+						b, err := os.ReadFile(p)
+						if err != nil {
+							continue
+						}
+						saved[p] = b
+						lines := strings.Split(string(b), "\n")
+						keep := t.Choose(len(lines), "keep-lines")
+						os.WriteFile(p, []byte(strings.Join(lines[:keep], "\n")), 0o644)
+						mt := time.Date(2002, 1, 1, 0, 0, 0, 0, time.UTC) // newer than what is cached (2001), older than "a moment ago"
+						os.Chtimes(p, mt, mt)
+					}
+					k.Count("fault_devmode_text_file_torn", 1)
+				} else if err := os.Rename(devModeRoot, aside); err != nil {
 					rc.Fail("harness", "%v", err)
 				} else {
-					for i, n := 0, t.Range(1, 2, "renders-while-gone"); i < n; i++ {
-						o := devRender()
-						evals++
-						if o.err != nil {
-							k.Count("fault_devmode_text_files_unreachable_render_failed", 1)
-							if !isPrefix(o.got, D) {
-								rc.Fail("C10/not-a-prefix:devmode-disk-fault", "text files unreachable, render of %s failed with %v and wrote %q, not a prefix of the document", spec, o.err, kernel.Short(string(o.got), 200))
-							}
-						} else if string(o.got) != string(D) {
-							rc.Fail("C10/nil-but-not-exact:devmode-disk-fault", "text files unreachable, render of %s returned nil but wrote %q", spec, kernel.Short(string(o.got), 200))
-						}
-					}
-					if err := os.Rename(aside, devModeRoot); err != nil {
-						rc.Fail("harness", "%v", err)
-					}
 					k.Count("fault_devmode_text_files_unreachable", 1)
-					for i := 0; i < 2 && !rc.Failed(); i++ {
-						o := devRender()
-						if o.err != nil {
-							rc.Fail("C10/later-render-error", "development mode: the text files were unreachable for a while and are back unchanged; render %d of %s afterwards returned %v", i, spec, o.err)
-						} else if string(o.got) != string(D) {
-							rc.Fail("C10/later-render-altered", "development mode: the text files were unreachable for a while and are back unchanged; render %d of %s afterwards wrote %q, want %q", i, spec, kernel.Short(string(o.got), 200), kernel.Short(string(D), 200))
-						}
+				}
+			}
+			what := map[bool]string{true: "text files cut short by a failed write", false: "text files unreachable"}[tornFault]
+			for i, n := 0, t.Range(1, 2, "renders-during-fault"); i < n && !rc.Failed(); i++ {
+				o := devRender()
+				evals++
+				if o.err != nil {
+					k.Count("fault_devmode_render_failed_during_disk_fault", 1)
+					if !isPrefix(o.got, want) {
+						rc.Fail("C10/not-a-prefix:devmode-disk-fault", "%s: render of %s failed with %v and wrote %q, not a prefix of the document", what, spec, o.err, kernel.Short(string(o.got), 200))
 					}
+				} else if string(o.got) != string(want) {
+					rc.Fail("C10/nil-but-not-exact:devmode-disk-fault", "%s: render of %s returned nil but wrote %q; the document the text files defined is %q", what, spec, kernel.Short(string(o.got), 200), kernel.Short(string(want), 200))
+				}
+			}
+			// the fault is over: the files are back as they were
+			if tornFault {
+				for p, b := range saved {
+					os.WriteFile(p, b, 0o644)
+					mt := time.Date(2003, 1, 1, 0, 0, 0, 0, time.UTC)
+					os.Chtimes(p, mt, mt)
+				}
+			} else if _, err := os.Stat(aside); err == nil {
+				if err := os.Rename(aside, devModeRoot); err != nil {
+					rc.Fail("harness", "%v", err)
+				}
+			}
+			for i := 0; i < 2 && !rc.Failed(); i++ {
+				o := devRender()
+				if o.err != nil {
+					rc.Fail("C10/later-render-error", "development mode: %s for a while, now back unchanged; render %d of %s afterwards returned %v", what, i, spec, o.err)
+				} else if string(o.got) != string(want) {
+					rc.Fail("C10/later-render-altered", "development mode: %s for a while, now back unchanged; render %d of %s afterwards wrote %q, want %q", what, i, spec, kernel.Short(string(o.got), 200), kernel.Short(string(want), 200))
 				}
 			}
 			templruntime.SetDevelopmentMode(false)
